@@ -1,13 +1,516 @@
-"""Container-level part of C15 (MPS/MPO, PEPS, environments). Filled in once the MPS/PEPS drivers exist."""
+"""
+Container-level part of C15 (MPS/MPO, PEPS, environments).
+(a) observer calls: every non-in-place container API call leaves all its arguments byte-identical; documented in-place
+    calls change only their receiver (H, operators, gates, option dicts, projected states stay intact).
+(b) aliasing histories: explicit-state BFS over {y = x.copy(), y = x.clone()} followed by in-place actions on either
+    side (depth <= 2 actions); the other side keeps its snapshot.  shallow_copy may alias tensors but container-level
+    re-assignment must not propagate.
+"""
+import collections
+import dataclasses
 
+import numpy as np
+import yastn
+import yastn.tn.mps as mps
+import yastn.tn.fpeps as fpeps
+
+from vmc.engine.runner import h64
+from vmc.gen import programs as P
+from vmc.gen import mpsgen as MG
+from vmc.gen import pepsgen as PG
+from . import _tcommon as TC
+
+
+# ---------------------------------------------------------------------------------------------
+# deep snapshot
+
+def dsnap(o, depth=0, seen=None):
+    """canonical bytes of the observable content of a container (tensors, numbers, plain containers, dataclasses, objects)"""
+    if seen is None:
+        seen = set()
+    if isinstance(o, yastn.Tensor):
+        return b'T' + P.canon(o)
+    if o is None or isinstance(o, (bool, int, float, complex, str, bytes, np.generic)):
+        return repr(o).encode()
+    if isinstance(o, np.ndarray):
+        return repr((o.shape, str(o.dtype))).encode() + o.tobytes()
+    if isinstance(o, yastn.Leg):
+        return repr(o).encode()
+    if id(o) in seen or depth > 12:
+        return b'<cycle>'
+    seen = seen | {id(o)}
+    if isinstance(o, dict):
+        items = sorted(((repr(k), v) for k, v in o.items()), key=lambda kv: kv[0])
+        return b'{' + b','.join(k.encode() + b':' + dsnap(v, depth + 1, seen) for k, v in items) + b'}'
+    if isinstance(o, (list, tuple)):
+        return b'[' + b','.join(dsnap(v, depth + 1, seen) for v in o) + b']'
+    if isinstance(o, fpeps.DoublePepsTensor):
+        return b'DPT' + dsnap([o.bra, o.ket, o.trans, o.op, o.swaps], depth + 1, seen)
+    if dataclasses.is_dataclass(o) and not isinstance(o, type):
+        return type(o).__name__.encode() + dsnap({f.name: getattr(o, f.name) for f in dataclasses.fields(o)}, depth + 1, seen)
+    if isinstance(o, mps.MpsMpoOBC) or type(o).__name__ in ('MpsMpoOBC', 'MpoPBC'):
+        return b'MPS' + dsnap({'A': o.A, 'pC': o.pC, 'factor': o.factor, 'N': o.N, 'nr_phys': o.nr_phys}, depth + 1, seen)
+    if callable(o) and not hasattr(o, '__dict__'):
+        return b'<callable>'
+    if hasattr(o, '__dict__'):
+        d = {k: v for k, v in vars(o).items() if not callable(v) or isinstance(v, (yastn.Tensor,))}
+        d = {k: v for k, v in d.items() if k not in ('geometry', 'info', 'xrange', 'yrange') and not k.startswith('_dict_gs')}
+        return type(o).__name__.encode() + dsnap(d, depth + 1, seen)
+    return repr(type(o)).encode()
+
+
+def snap(o):
+    return h64(dsnap(o))
+
+
+# ---------------------------------------------------------------------------------------------
 
 def groups(tier):
-    return []
+    gs = []
+    for fam, sym in (('spin12', 'dense'), ('spin12', 'U1'), ('spinless', 'Z2'), ('spinless', 'U1'), ('spinful', 'U1xU1')):
+        gs.append({'kind': 'c_mps_obs', 'fam': fam, 'sym': sym, 'level': 1})
+        gs.append({'kind': 'c_mps_alias', 'fam': fam, 'sym': sym, 'level': 1})
+    for fam, sym in (('spinless', 'U1'), ('spinless', 'Z2'), ('spin12', 'dense'), ('spin12', 'Z2')):
+        gs.append({'kind': 'c_peps_obs', 'fam': fam, 'sym': sym, 'level': 1})
+        gs.append({'kind': 'c_peps_alias', 'fam': fam, 'sym': sym, 'level': 1})
+    return gs
 
 
 def run_group(g, acc):
-    raise KeyError(g)
+    {'c_mps_obs': run_mps_obs, 'c_mps_alias': run_mps_alias, 'c_peps_obs': run_peps_obs, 'c_peps_alias': run_peps_alias}[g['kind']](g, acc)
 
+
+def observe(acc, case, name, args, f, may_change=()):
+    """run f; every object in args keeps its snapshot unless its index is in may_change"""
+    before = [snap(a) for a in args]
+    st, out = TC.call(f)
+    acc.transitions += 1
+    acc.cnt['container_calls'] += 1
+    changed = [i for i, a in enumerate(args) if snap(a) != before[i]]
+    bad = [i for i in changed if i not in may_change]
+    acc.ev(key=('c', repr(case), name), nontrivial=True, outcome=('c', name, st, tuple(changed)))
+    if st == 'exc':
+        acc.fail(dict(case, call=name), f"{name} raised: {out}")
+    if bad:
+        acc.fail(dict(case, call=name), f"{name} modified its argument(s) #{bad} (status {st}); only {sorted(may_change)} may change")
+    return st, out
+
+
+# ---------------------------------------------------------------------------------------------
+# MPS / MPO
+
+def mps_objects(g, seed):
+    loc = MG.Local(g['fam'], g['sym'])
+    N = 3
+    ch = loc.charges_N(N)
+    n = ch[len(ch) // 2]
+    psi = MG.random_state(loc, N, n, 3, (seed, 'c15c', 'psi'), integer=False, cplx=False)
+    phi = MG.random_state(loc, N, n, 2, (seed, 'c15c', 'phi'), integer=False, cplx=True)
+    from . import c09
+    name, a, b = c09.hamiltonians(loc, N, 'quick')[0]
+    terms = list(a) + list(b)
+    H = mps.generate_mpo(loc.O['I'], terms, N=N)
+    return loc, N, psi, phi, H
+
+
+def run_mps_obs(g, acc):
+    loc, N, psi, phi, H = mps_objects(g, acc.seed)
+    case = {k: g[k] for k in ('kind', 'fam', 'sym')}
+    O = loc.O
+    nz = [k for k in O if k != 'I' and not any(O[k].n)]
+    opn = O[nz[0]] if nz else O['I']
+    psi.canonize_(to='first')
+    phi.canonize_(to='first')
+    Hs = H if isinstance(H, mps.MpsMpoOBC) else None
+    if Hs is None:
+        Hs = loc.I_mpo(N)
+    calls = [
+        ('vdot', [psi, phi], lambda: mps.vdot(psi, phi)),
+        ('vdot_mpo', [psi, Hs, phi], lambda: mps.vdot(psi, Hs, phi)),
+        ('measure_overlap', [psi, phi], lambda: mps.measure_overlap(psi, phi)),
+        ('measure_mpo', [psi, Hs, phi], lambda: mps.measure_mpo(psi, Hs, phi)),
+        ('measure_1site', [psi, opn], lambda: mps.measure_1site(psi, opn, psi)),
+        ('measure_2site', [psi, opn], lambda: mps.measure_2site(psi, opn, opn, psi)),
+        ('measure_nsite', [psi, opn], lambda: mps.measure_nsite(psi, opn, opn, ket=psi, sites=(0, 2))),
+        ('add', [psi, phi], lambda: mps.add(psi, phi, amplitudes=(1, 2))),
+        ('__add__', [psi, phi], lambda: psi + phi),
+        ('__sub__', [psi, phi], lambda: psi - phi),
+        ('__mul__', [psi], lambda: 2.5 * psi),
+        ('__neg__', [psi], lambda: -psi),
+        ('__truediv__', [psi], lambda: psi / 2),
+        ('__matmul__', [Hs, psi], lambda: Hs @ psi),
+        ('multiply', [Hs, psi], lambda: mps.multiply(Hs, psi)),
+        ('mpo@mpo', [Hs], lambda: Hs @ Hs),
+        ('conj', [psi], lambda: psi.conj()),
+        ('T', [Hs], lambda: Hs.T),
+        ('H', [Hs], lambda: Hs.H),
+        ('transpose', [Hs], lambda: Hs.transpose()),
+        ('norm', [psi], lambda: psi.norm()),
+        ('norm_noncanonical', [phi], lambda: (phi + phi).norm()),
+        ('get_entropy', [psi], lambda: psi.get_entropy()),
+        ('get_Schmidt_values', [psi], lambda: psi.get_Schmidt_values()),
+        ('get_bond_dimensions', [psi], lambda: (psi.get_bond_dimensions(), psi.get_bond_charges_dimensions(), psi.get_virtual_legs(), psi.get_physical_legs())),
+        ('is_canonical', [psi], lambda: (psi.is_canonical(to='first'), psi.is_canonical(to='last'))),
+        ('to_tensor', [psi], lambda: psi.to_tensor()),
+        ('to_tensor_mpo', [Hs], lambda: Hs.to_tensor()),
+        ('to_matrix', [Hs], lambda: Hs.to_matrix()),
+        ('to_dict', [psi], lambda: psi.to_dict()),
+        ('to_dict_level0', [psi], lambda: psi.to_dict(level=0)),
+        ('save_to_dict', [psi], lambda: psi.save_to_dict()),
+        ('copy', [psi], lambda: psi.copy()),
+        ('clone', [psi], lambda: psi.clone()),
+        ('shallow_copy', [psi], lambda: psi.shallow_copy()),
+        ('on_bra', [psi], lambda: psi.on_bra()),
+        ('reverse_sites', [psi], lambda: psi.reverse_sites()),
+        ('zipper', [Hs, psi], lambda: mps.zipper(Hs, psi, opts_svd={'D_total': 4})),
+        ('rdm', [psi], lambda: mps.rdm(psi, 0, 2) if hasattr(mps, 'rdm') else None),
+        ('Env', [psi, Hs, phi], lambda: mps.Env(psi, [Hs, phi]).setup_(to='first').measure()),
+        ('Env_sum', [psi, Hs, phi], lambda: mps.Env(psi, [[Hs, Hs], phi]).setup_(to='first').measure()),
+        ('sample', [psi], lambda: mps.sample(psi, {k: v for k, v in enumerate(proj_vectors(loc))}, number=2) if hasattr(mps, 'sample') else None),
+        ('str', [psi], lambda: (str(psi), repr(psi), len(psi), list(psi.sweep(to='last')))),
+    ]
+    for name, args, f in calls:
+        acc.check_time()
+        observe(acc, case, name, args, f)
+    # documented in-place calls: only the receiver may change
+    target = (phi + psi)
+    opts = {'D_total': 2, 'tol': 1e-12}
+    opts0 = dict(opts)
+    y = psi.copy()
+    inplace = [
+        ('canonize_', [y], lambda: y.canonize_(to='last'), (0,)),
+        ('truncate_', [y, opts], lambda: y.truncate_(to='first', opts_svd=opts), (0,)),
+        ('orthogonalize_site_', [y], lambda: y.orthogonalize_site_(1, to='last'), (0,)),
+        ('absorb_central_', [y], lambda: y.absorb_central_(to='last'), (0,)),
+        ('compression_', [y, target, opts], lambda: mps.compression_(y, target, method='2site', max_sweeps=2, opts_svd=opts), (0,)),
+        ('compression_mpo_', [y, Hs, psi, opts], lambda: mps.compression_(y, [Hs, psi], method='1site', max_sweeps=1), (0,)),
+        ('dmrg_', [y, Hs, opts, phi], lambda: mps.dmrg_(y, Hs, project=[phi], method='2site', max_sweeps=1, opts_svd=opts), (0,)),
+        ('dmrg_iterator', [y, Hs, opts], lambda: list(mps.dmrg_(y, Hs, method='1site', max_sweeps=2, iterator=True)), (0,)),
+        ('tdvp_', [y, Hs, opts], lambda: list(mps.tdvp_(y, Hs, times=(0, 0.1), dt=0.1, method='2site', opts_svd=opts)), (0,)),
+        ('tdvp_12site', [y, Hs, opts], lambda: list(mps.tdvp_(y, Hs, times=(0, 0.05, 0.1), dt=0.05, method='12site', opts_svd=opts)), (0,)),
+    ]
+    for name, args, f, mc in inplace:
+        acc.check_time()
+        observe(acc, case, name, args, f, may_change=mc)
+    if opts != opts0:
+        acc.fail(dict(case, call='opts'), f"an opts_svd dictionary was modified: {opts} != {opts0}")
+    acc.sample(case)
+
+
+def proj_vectors(loc):
+    if loc.fam == 'spin12':
+        return [loc.ops.vec_z(1), loc.ops.vec_z(-1)]
+    if loc.fam == 'spinless':
+        return [loc.ops.vec_n(0), loc.ops.vec_n(1)]
+    return [loc.ops.vec_n((0, 0)), loc.ops.vec_n((1, 0)), loc.ops.vec_n((0, 1)), loc.ops.vec_n((1, 1))]
+
+
+def mps_inplace_actions(N):
+    acts = [('canonize_last', lambda x: x.canonize_(to='last')),
+            ('canonize_first_nn', lambda x: x.canonize_(to='first', normalize=False)),
+            ('truncate', lambda x: (x.canonize_(to='last'), x.truncate_(to='first', opts_svd={'D_total': 1}))),
+            ('orthogonalize_site', lambda x: x.orthogonalize_site_(0, to='last')),
+            ('setitem', lambda x: x.__setitem__(1, 2 * x[1])),
+            ('raw_data_write', lambda x: _raw_write(x[N - 1])),
+            ('set_block', lambda x: _set_block_write(x[0])),
+            ('factor', lambda x: setattr(x, 'factor', 3 * x.factor))]
+    return acts
+
+
+def _raw_write(t):
+    t._data[...] = t._data * 3 + 1
+
+
+def _set_block_write(t):
+    ts = t.struct.t[0]
+    n = len(ts) // t.ndim_n if t.ndim_n else 0
+    key = tuple(ts[i * n:(i + 1) * n] for i in range(t.ndim_n)) if n else ()
+    blk = t[key if len(key) != 1 or n else ()]
+    blk[...] = blk * 0 + 7
+
+
+def run_alias_generic(acc, case, make, actions, copiers, depth=2):
+    """BFS over (copier, action sequence on source / on copy): the untouched side keeps its snapshot"""
+    for cname in copiers:
+        for side in ('source', 'copy'):
+            frontier = [[]]
+            for d in range(depth):
+                nxt = []
+                for hist in frontier:
+                    for aname, _ in actions:
+                        acc.check_time()
+                        h = hist + [aname]
+                        c = dict(case, copier=cname, side=side, hist=h)
+                        m = alias_case(make, actions, cname, side, h)
+                        acc.states += 1
+                        acc.transitions += 1
+                        acc.cnt['container_alias_histories'] += 1
+                        acc.ev(key=('ca', repr(c)), nontrivial=True, outcome=('ca', cname, side, m is None, aname))
+                        if m == 'skip':
+                            continue
+                        if m:
+                            acc.fail(c, m)
+                        else:
+                            nxt.append(h)
+                frontier = nxt
+
+
+def alias_case(make, actions, cname, side, hist):
+    x = make()
+    st, y = TC.call(lambda: getattr(x, cname)())
+    if st != 'ok':
+        return f"{type(x).__name__}.{cname}() failed: {st}: {y}"
+    amap = dict(actions)
+    sx, sy = snap(x), snap(y)
+    if sx != sy and cname in ('copy', 'clone'):
+        return f"{type(x).__name__}.{cname}() is not observationally identical to the source"
+    tgt, other, so = (x, y, sy) if side == 'source' else (y, x, sx)
+    for a in hist:
+        st, r = TC.call(lambda: amap[a](tgt))
+        if st != 'ok':
+            return 'skip'
+    if snap(other) != so:
+        return (f"after {type(x).__name__}.{cname}(), in-place actions {hist} on the {side} changed the "
+                f"{'copy' if side == 'source' else 'source'}")
+    return None
+
+
+def run_mps_alias(g, acc):
+    loc, N, psi, phi, H = mps_objects(g, acc.seed)
+    case = {k: g[k] for k in ('kind', 'fam', 'sym')}
+
+    def make_mps():
+        return MG.random_state(loc, N, loc.charges_N(N)[len(loc.charges_N(N)) // 2], 3, (acc.seed, 'c15c', 'psi'), integer=False, cplx=False)
+
+    def make_mpo():
+        return MG.random_operator(loc, N, 2, (acc.seed, 'c15c', 'op'), integer=False)
+    run_alias_generic(acc, dict(case, obj='mps'), make_mps, mps_inplace_actions(N), ('copy', 'clone'))
+    run_alias_generic(acc, dict(case, obj='mpo'), make_mpo, mps_inplace_actions(N), ('copy', 'clone'), depth=1)
+    # shallow copy: container-level re-assignment must not propagate
+    acts = [a for a in mps_inplace_actions(N) if a[0] in ('canonize_last', 'truncate', 'orthogonalize_site', 'setitem', 'factor')]
+    run_alias_generic(acc, dict(case, obj='mps'), make_mps, acts, ('shallow_copy',), depth=1)
+    acc.sample(case)
+
+
+# ---------------------------------------------------------------------------------------------
+# PEPS and environments
+
+def peps_objects(g, seed, dims=(2, 2)):
+    loc = PG.PLocal(g['fam'], g['sym'])
+    geo = PG.lattice(dims, 'obc')
+    psi = PG.make_state(loc, geo, ('purif', 'I'))
+    nn, lc = PG.gate_kinds(loc)
+    for k, b in enumerate(geo.bonds()):
+        kind, par = nn[0]
+        psi.apply_gate_(PG.build_gate(loc, {'kind': kind, 'par': par, 'step': PG.jstep(0.2 + 0.1j * (k + 1)), 'sites': [list(b[0]), list(b[1])]}))
+    return loc, geo, psi
+
+
+def a_gate(loc, geo, k=0, step=0.15):
+    nn, lc = PG.gate_kinds(loc)
+    b = PG.bonds_both(geo)[k]
+    kind, par = nn[0]
+    return PG.build_gate(loc, {'kind': kind, 'par': par, 'step': PG.jstep(step), 'sites': [list(b[0]), list(b[1])]})
+
+
+def run_peps_obs(g, acc):
+    loc, geo, psi = peps_objects(g, acc.seed)
+    case = {k: g[k] for k in ('kind', 'fam', 'sym')}
+    O = loc.O
+    nz = [k for k in O if k != 'I' and not any(O[k].n)]
+    opn = O[nz[0]] if nz else O['I']
+    pair = {'spinless': ('cp', 'c'), 'spin12': ('sp', 'sm')}[loc.fam]
+    gate = a_gate(loc, geo)
+    phi = psi.copy()
+    sites = [tuple(s) for s in geo.sites()]
+    bonds = [(tuple(b[0]), tuple(b[1])) for b in geo.bonds()]
+    calls = [
+        ('to_tensor', [psi], lambda: psi.to_tensor()),
+        ('transfer_mpo', [psi], lambda: (psi.transfer_mpo(0, 'v'), psi.transfer_mpo(1, 'h'))),
+        ('get_bond_dimensions', [psi], lambda: psi.get_bond_dimensions()),
+        ('copy', [psi], lambda: psi.copy()),
+        ('clone', [psi], lambda: psi.clone()),
+        ('shallow_copy', [psi], lambda: psi.shallow_copy()),
+        ('to_dict', [psi], lambda: psi.to_dict()),
+        ('save_to_dict', [psi], lambda: psi.save_to_dict()),
+        ('add', [psi, phi], lambda: fpeps.add(psi, phi, amplitudes=(1, 2))),
+        ('__add__', [psi, phi], lambda: psi + phi),
+        ('has_physical', [psi], lambda: (psi.has_physical(), psi.config, repr(psi))),
+        ('Peps2Layers', [psi], lambda: fpeps.Peps2Layers(psi)[0, 0].fuse_layers()) if hasattr(fpeps, 'Peps2Layers') else ('skip', [], lambda: None),
+        ('EnvNTU_metric', [psi], lambda: _ntu_metric(psi, geo)),
+        ('EnvCTM_init', [psi], lambda: fpeps.EnvCTM(psi, init='eye')),
+        ('EnvBP_init', [psi], lambda: fpeps.EnvBP(psi)),
+        ('EnvBoundaryMPS_init', [psi], lambda: fpeps.EnvBoundaryMPS(psi, opts_svd={'D_total': 64}, setup='lrtb')),
+    ]
+    for name, args, f in calls:
+        acc.check_time()
+        observe(acc, case, name, args, f)
+    # environments: measurements modify neither the environment nor the state nor the operators
+    env = fpeps.EnvCTM(psi, init='eye')
+    for _ in range(2):
+        env.expand_outward_()
+    bmps = fpeps.EnvBoundaryMPS(psi, opts_svd={'D_total': 64}, setup='lrtb')
+    bp = fpeps.EnvBP(psi)
+    bp.iterate_(max_sweeps=3)
+    o0, o1 = O[pair[0]], O[pair[1]]
+    odict = {s: {'a': opn, 'b': O['I']} for s in sites}
+    for ename, e in (('ctm', env), ('bmps', bmps), ('bp', bp)):
+        mcalls = [
+            ('measure_1site', [e, psi, opn], lambda: e.measure_1site(opn)),
+            ('measure_1site_dict', [e, psi, odict], lambda: e.measure_1site(odict)),
+            ('measure_nn', [e, psi, o0, o1], lambda: e.measure_nn(o0, o1)),
+        ]
+        if ename != 'bp':
+            mcalls += [
+                ('measure_2site', [e, psi, o0, o1], lambda: e.measure_2site(o0, o1, xrange=(0, 2), yrange=(0, 2), pairs='<=')),
+                ('measure_nsite', [e, psi, o0, o1], lambda: e.measure_nsite(o0, o1, sites=(sites[0], sites[3]))),
+            ]
+        if ename == 'ctm':
+            mcalls += [
+                ('measure_2x2', [e, psi, o0, o1], lambda: e.measure_2x2(o0, o1, sites=(sites[0], sites[3]))),
+                ('measure_line', [e, psi, o0, o1], lambda: e.measure_line(o0, o1, sites=(sites[0], sites[1]))),
+                ('measure_nsite_exact', [e, psi, o0, o1], lambda: e.measure_nsite_exact(o0, o1, sites=(sites[0], sites[3]))),
+                ('copy', [e, psi], lambda: e.copy()),
+                ('clone', [e, psi], lambda: e.clone()),
+                ('shallow_copy', [e, psi], lambda: e.shallow_copy()),
+                ('to_dict', [e, psi], lambda: e.to_dict()),
+                ('save_to_dict', [e, psi], lambda: e.save_to_dict()),
+                ('boundary_mps', [e, psi], lambda: e.boundary_mps(0, 'l')),
+                ('bond_metric', [e, psi], lambda: _env_metric(e, psi, geo)),
+                ('sample', [e, psi], lambda: e.sample({k: v for k, v in enumerate(loc.basis_vectors())}, number=1) if loc.fam != 'spinless' or True else None),
+            ]
+        if ename == 'bp':
+            mcalls += [('copy', [e, psi], lambda: e.copy()), ('clone', [e, psi], lambda: e.clone()), ('to_dict', [e, psi], lambda: e.to_dict()),
+                       ('bond_metric', [e, psi], lambda: _env_metric(e, psi, geo))]
+        if ename == 'bmps':
+            mcalls += [('to_dict', [e, psi], lambda: e.to_dict())]
+        for name, args, f in mcalls:
+            acc.check_time()
+            observe(acc, dict(case, env=ename), f"{ename}.{name}", args, f)
+    # in-place: apply_gate_ changes psi only; evolution_step_ changes env.psi (and the environment) only; the gate is intact
+    y = psi.copy()
+    opts = {'D_total': 4, 'tol': 1e-12}
+    opts0 = dict(opts)
+    observe(acc, case, 'apply_gate_', [y, gate], lambda: y.apply_gate_(gate), may_change=(0,))
+    for k, bb in enumerate(PG.bonds_both(geo)):
+        gk = a_gate(loc, geo, k, 0.1 + 0.05j * k)
+        yk = psi.copy()
+        observe(acc, case, f'apply_gate_[{geo.nn_bond_dirn(*bb)}]', [yk, gk], lambda: yk.apply_gate_(gk), may_change=(0,))
+    for pth in PG.paths(geo, 3)[::3]:
+        gm = PG.build_gate(loc, {'kind': 'mpo', 'par': {'a': 1.0}, 'step': None, 'sites': [list(s_) for s_ in pth]})
+        gt = PG.build_gate(loc, {'kind': 'tensors', 'par': {'a': 1.0}, 'step': None, 'sites': [list(s_) for s_ in pth]})
+        y3, y4 = psi.copy(), psi.copy()
+        observe(acc, case, 'apply_gate_[mpo]', [y3, gm.G], lambda: y3.apply_gate_(gm), may_change=(0,))
+        observe(acc, case, 'apply_gate_[tensors]', [y4, list(gt.G)], lambda: y4.apply_gate_(gt), may_change=(0,))
+    for ename, e in (('ctm', env), ('bp', bp)):
+        for bb in PG.bonds_both(geo):
+            observe(acc, dict(case, env=ename), f'{ename}.measure_nn[{geo.nn_bond_dirn(*bb)}]', [e, psi, o0, o1], lambda: e.measure_nn(o0, o1, bond=bb))
+    envn = fpeps.EnvNTU(y, which='NN')
+    observe(acc, case, 'evolution_step_', [y, gate, opts, psi], lambda: fpeps.evolution_step_(envn, [gate], opts_svd=opts), may_change=(0,))
+    y2 = psi.copy()
+    envc = fpeps.EnvCTM(y2, init='eye')
+    observe(acc, case, 'ctm.update_', [envc, y2, opts], lambda: envc.update_(opts_svd=opts), may_change=(0,))
+    observe(acc, case, 'ctm.iterate_', [envc, y2, opts], lambda: envc.iterate_(opts_svd=opts, max_sweeps=2), may_change=(0,))
+    observe(acc, case, 'ctm.reset_', [envc, y2], lambda: envc.reset_(init='eye'), may_change=(0,))
+    observe(acc, case, 'ctm.expand_outward_', [envc, y2], lambda: envc.expand_outward_(), may_change=(0,))
+    envb = fpeps.EnvBP(y2)
+    observe(acc, case, 'bp.iterate_', [envb, y2], lambda: envb.iterate_(max_sweeps=2), may_change=(0,))
+    observe(acc, case, 'truncate_', [y, opts, psi], lambda: fpeps.truncate_(envn, opts_svd=opts, bond=bonds[0]), may_change=(0,))
+    if opts != opts0:
+        acc.fail(dict(case, call='opts'), f"an opts_svd dictionary was modified: {opts} != {opts0}")
+    acc.sample(case)
+
+
+def _ntu_metric(psi, geo):
+    from . import c12
+    b = [(tuple(x[0]), tuple(x[1])) for x in geo.bonds()][0]
+    return c12.metric_case(psi, 'NN+', b, geo.nn_bond_dirn(*b))
+
+
+def _env_metric(env, psi, geo):
+    from . import c12
+    b = [(tuple(x[0]), tuple(x[1])) for x in geo.bonds()][0]
+    dirn = geo.nn_bond_dirn(*b)
+    Q0, R0, Q1, R1 = c12.qr_pair(psi, b[0], b[1], dirn)
+    return env.bond_metric(Q0, Q1, b[0], b[1], dirn)
+
+
+def run_peps_alias(g, acc):
+    loc, geo, psi0 = peps_objects(g, acc.seed)
+    case = {k: g[k] for k in ('kind', 'fam', 'sym')}
+    gate = a_gate(loc, geo)
+    gate2 = a_gate(loc, geo, 3, 0.3j)
+    sites = [tuple(s) for s in geo.sites()]
+
+    def make_peps():
+        return psi0.copy()
+    pacts = [('apply_gate', lambda x: x.apply_gate_(gate)),
+             ('apply_gate2', lambda x: x.apply_gate_(gate2)),
+             ('setitem', lambda x: x.__setitem__(sites[1], 2 * x[sites[1]])),
+             ('raw_data_write', lambda x: _raw_write(x[sites[2]])),
+             ('patch', lambda x: (x.move_to_patch([sites[0]]), x.__setitem__(sites[0], 3 * x[sites[0]]), x.apply_patch())),
+             ('evolution_step', lambda x: fpeps.evolution_step_(fpeps.EnvNTU(x, which='NN'), [gate], opts_svd={'D_total': 2}))]
+    run_alias_generic(acc, dict(case, obj='peps'), make_peps, pacts, ('copy', 'clone'))
+    run_alias_generic(acc, dict(case, obj='peps'), make_peps, [a for a in pacts if a[0] != 'raw_data_write'], ('shallow_copy',), depth=1)
+
+    # two-layer PEPS with a distinct bra
+    def make_2l():
+        return fpeps.Peps2Layers(ket=psi0.copy(), bra=psi0.copy())
+    l2acts = [('ket_apply_gate', lambda x: x.ket.apply_gate_(gate)), ('bra_raw_write', lambda x: _raw_write(x.bra[sites[0]]))]
+    run_alias_generic(acc, dict(case, obj='peps2layers'), make_2l, l2acts, ('clone',), depth=1)
+
+    def make_2l_single():
+        return fpeps.Peps2Layers(ket=psi0.copy())
+    run_alias_generic(acc, dict(case, obj='peps2layers_single'), make_2l_single, l2acts[:1], ('clone',), depth=1)
+
+    # environments: copy() copies the environment tensors (the state is shared by design); clone() is fully independent
+    opts = {'D_total': 4, 'tol': 1e-12}
+
+    def make_ctm():
+        e = fpeps.EnvCTM(psi0.copy(), init='eye')
+        e.expand_outward_()
+        return e
+    eacts = [('update', lambda e: e.update_(opts_svd=opts)), ('reset', lambda e: e.reset_(init='rand')), ('expand', lambda e: e.expand_outward_()),
+             ('raw_env_write', lambda e: _raw_write(e[sites[0]].tl)),
+             ('setattr_env', lambda e: setattr(e[sites[1]], 't', 2 * e[sites[1]].t))]
+    run_alias_generic(acc, dict(case, obj='envctm'), make_ctm, eacts, ('copy', 'clone'), depth=1)
+    psiacts = [('psi_apply_gate', lambda e: e.psi.ket.apply_gate_(gate)), ('psi_raw_write', lambda e: _raw_write(e.psi.ket[sites[0]]))]
+    run_alias_generic(acc, dict(case, obj='envctm'), make_ctm, psiacts, ('clone',), depth=1)
+
+    def make_bp():
+        e = fpeps.EnvBP(psi0.copy())
+        e.iterate_(max_sweeps=2)
+        return e
+    bacts = [('update', lambda e: e.update_()), ('reset', lambda e: e.reset_(init='eye')), ('raw_env_write', lambda e: _raw_write(e[sites[0]].t))]
+    run_alias_generic(acc, dict(case, obj='envbp'), make_bp, bacts, ('copy', 'clone'), depth=1)
+    acc.sample(case)
+
+
+# ---------------------------------------------------------------------------------------------
 
 def replay(case):
-    return []
+    acc = _Mini()
+    acc.seed = case.get('seed', 0)
+    g = {k: case[k] for k in ('kind', 'fam', 'sym')}
+    run_group(g, acc)
+    keys = [k for k in case if k not in ('seed',)]
+    return [v['msg'] for v in acc.violations if all(v['case'].get(k) == case.get(k) for k in keys)][:3]
+
+
+class _Mini:
+    def __init__(self):
+        self.violations, self.cnt = [], collections.Counter()
+        self.evaluations = self.states = self.transitions = 0
+        self.tier, self.seed = 'quick', 0
+
+    def ev(self, *a, **k):
+        pass
+
+    def fail(self, case, msg, key=None):
+        self.violations.append({'case': case, 'msg': msg})
+
+    def sample(self, c):
+        pass
+
+    def check_time(self):
+        pass
